@@ -137,6 +137,27 @@ def _is_sign_adapted(e: ast.AST, signs: set[str], kinds: Kinds, depth=0) -> bool
     return False
 
 
+def _whole_permutation(f, call, parents) -> bool:
+    """the argsort result is only ever used as a complete index (`A[perm]`), never cut or read at a position"""
+    p_ = parents.get(id(call))
+    names = []
+    if isinstance(p_, ast.Assign) and len(p_.targets) == 1 and isinstance(p_.targets[0], ast.Name) and p_.value is call:
+        names = [p_.targets[0].id]
+        uses = [x for x in body_walk(f.node) if isinstance(x, ast.Name) and x.id == names[0] and isinstance(x.ctx, ast.Load)]
+    elif isinstance(p_, ast.Subscript) and p_.slice is call:
+        # X[np.argsort(..)]: whole use, provided the subscripted value is then not cut either (that is the caller's rows)
+        return True
+    else:
+        return False
+    if not uses:
+        return False
+    for u in uses:
+        q = parents.get(id(u))
+        if not (isinstance(q, ast.Subscript) and q.slice is u):
+            return False
+    return True
+
+
 def r13_1(ctx: Ctx):
     """R13.1 no raw order-sensitive use of objective values outside a maximize switch / sign adapter / tabled exception."""
     find_switches(ctx)  # fills f._dir_locals
@@ -202,6 +223,13 @@ def r13_1(ctx: Ctx):
                 continue
             if f.short in RAW_EXCEPTIONS or (f.parent is not None and f.parent.short in RAW_EXCEPTIONS):
                 obs.append(ctx.ob("R13.1", f, n, detail=f"tabled exception: {RAW_EXCEPTIONS.get(f.short, '')}", trivial=True))
+                continue
+            if what == "argsort()" and _whole_permutation(f, n, parents):
+                # the ascending permutation is used whole (`rows[perm]`): nothing is selected by it, the rows are only put in
+                # ascending order. Population.topk's rows ARE ascending by contract (R13.12 checks its readers); elsewhere the
+                # order may matter to a caller this rule does not follow.
+                is_topk = f.cls is not None and f.cls.name == "Population" and f.name == "topk"
+                obs.append(ctx.ob("R13.1", f, n, status=OK if is_topk else INCONCLUSIVE, detail=f"argsort() of `{norm(fit[0])[:50]}` used as a whole permutation: orders the rows ascending, selects none" + ("" if is_topk else " - cannot tell whether a caller relies on the order"), construct=norm(n)[:120]))
                 continue
             obs.append(ctx.ob("R13.1", f, n, status=VIOLATION, detail=f"raw {what} on objective values `{', '.join(norm(x) for x in fit)[:90]}` outside any maximize switch: the decision is taken as if the problem were a minimisation (or maximisation) regardless of its direction", construct=norm(n)[:120]))
     # external minimisers
@@ -625,6 +653,43 @@ def r13_6(ctx: Ctx):
     return obs
 
 
+def _follow_direction_param(ctx, obs, ci, m, y, pname, attr):
+    """the constructor parameter `pname` decides a direction kept in `ci`: look at every construction site in pyhms"""
+    from .common import ctor_arguments
+
+    a = m.node.args
+    pos = a.posonlyargs + a.args
+    dmap = dict(zip([x.arg for x in pos][len(pos) - len(a.defaults):], a.defaults)) if a.defaults else {}
+    dmap.update({k.arg: d for k, d in zip(a.kwonlyargs, a.kw_defaults) if d is not None})
+    sites = []
+    for g in ctx.prog.all_functions():
+        for c in body_walk(g.node):
+            if isinstance(c, ast.Call) and ctx.prog.resolve_class_expr(c.func, g.module) is ci:
+                sites.append((g, c))
+    if not sites:
+        obs.append(ctx.ob("R13.8", m, y, status=INCONCLUSIVE if pname in dmap else OK, detail=f"{ci.name}.{attr} comes from constructor parameter `{pname}`; no construction site in pyhms", construct=f"{ci.name}.{attr}"))
+    for g, c in sites:
+        am = ctor_arguments(ctx, c, ci.name)
+        arg = (am or {}).get(pname)
+        if am is None:
+            st, why = INCONCLUSIVE, "its arguments cannot be mapped"
+        elif arg is None and pname in dmap:
+            st, why = VIOLATION, f"does not pass `{pname}`, so the default `{norm(dmap[pname])}` decides the direction: on a {'maximisation' if not (isinstance(dmap[pname], ast.Constant) and dmap[pname].value) else 'minimisation'} problem the engine's comparisons point the wrong way"
+        elif arg is None:
+            st, why = INCONCLUSIVE, f"does not pass `{pname}`"
+        elif isinstance(arg, ast.Constant):
+            st, why = VIOLATION, f"passes the constant {norm(arg)} as the direction"
+        elif _reads_maximize(arg) * (1 if "max" in pname else -1 if "min" in pname else 0) * (1 if "max" in attr else -1) > 0 and not isinstance(arg, ast.Name):
+            st, why = OK, f"passes `{norm(arg)}`"
+        elif _reads_maximize(arg) and not isinstance(arg, ast.Name) and attr.startswith("maximize-derived:"):
+            st, why = INCONCLUSIVE, f"passes `{norm(arg)}` for `{pname}`: the sense of the derived attribute is not followed"
+        elif _reads_maximize(arg) and not isinstance(arg, ast.Name):
+            st, why = VIOLATION, f"passes `{norm(arg)}` for `{pname}`: the direction is inverted"
+        else:
+            st, why = INCONCLUSIVE, f"passes `{norm(arg)[:60]}`, not recognisably the problem's direction"
+        obs.append(ctx.ob("R13.8", g, c, status=st, detail=f"{g.short} builds {ci.name} and {why}" , construct=f"{ci.name}.{attr}:{g.short}"))
+
+
 def r13_8(ctx: Ctx):
     """R13.8 a direction kept in an object is the problem's own: every attribute a maximize switch reads through `self` is
     assigned from `<problem>.maximize`, or from a constructor parameter that EVERY construction site in pyhms fills from
@@ -673,38 +738,26 @@ def r13_8(ctx: Ctx):
                     obs.append(ctx.ob("R13.8", m, y, status=VIOLATION, detail=f"{ci.name}.{attr} is the constant {norm(v)}: the engine decides in one fixed direction whatever the problem's is", construct=f"{ci.name}.{attr}"))
                     continue
                 if isinstance(v, ast.Name) and m.name == "__init__" and v.id in m.params():
-                    # follow the parameter to every construction site
-                    a = m.node.args
-                    pos = a.posonlyargs + a.args
-                    dmap = dict(zip([x.arg for x in pos][len(pos) - len(a.defaults):], a.defaults)) if a.defaults else {}
-                    dmap.update({k.arg: d for k, d in zip(a.kwonlyargs, a.kw_defaults) if d is not None})
-                    sites = []
-                    for g in ctx.prog.all_functions():
-                        for c in body_walk(g.node):
-                            if isinstance(c, ast.Call) and ctx.prog.resolve_class_expr(c.func, g.module) is ci:
-                                sites.append((g, c))
-                    if not sites:
-                        obs.append(ctx.ob("R13.8", m, y, status=INCONCLUSIVE if v.id in dmap else OK, detail=f"{ci.name}.{attr} comes from constructor parameter `{v.id}`; no construction site in pyhms", construct=f"{ci.name}.{attr}"))
-                    for g, c in sites:
-                        am = ctor_arguments(ctx, c, ci.name)
-                        arg = (am or {}).get(v.id)
-                        if am is None:
-                            st, why = INCONCLUSIVE, "its arguments cannot be mapped"
-                        elif arg is None and v.id in dmap:
-                            st, why = VIOLATION, f"does not pass `{v.id}`, so the default `{norm(dmap[v.id])}` decides the direction: on a {'maximisation' if not (isinstance(dmap[v.id], ast.Constant) and dmap[v.id].value) else 'minimisation'} problem the engine's comparisons point the wrong way"
-                        elif arg is None:
-                            st, why = INCONCLUSIVE, f"does not pass `{v.id}`"
-                        elif isinstance(arg, ast.Constant):
-                            st, why = VIOLATION, f"passes the constant {norm(arg)} as the direction"
-                        elif _reads_maximize(arg) * (1 if "max" in v.id else -1 if "min" in v.id else 0) * (1 if "max" in attr else -1) > 0 and not isinstance(arg, ast.Name):
-                            st, why = OK, f"passes `{norm(arg)}`"
-                        elif _reads_maximize(arg) and not isinstance(arg, ast.Name):
-                            st, why = VIOLATION, f"passes `{norm(arg)}` for `{v.id}`: the direction is inverted"
-                        else:
-                            st, why = INCONCLUSIVE, f"passes `{norm(arg)[:60]}`, not recognisably the problem's direction"
-                        obs.append(ctx.ob("R13.8", g, c, status=st, detail=f"{g.short} builds {ci.name} and {why}" , construct=f"{ci.name}.{attr}:{g.short}"))
+                    _follow_direction_param(ctx, obs, ci, m, y, v.id, attr)
                     continue
                 obs.append(ctx.ob("R13.8", m, y, status=INCONCLUSIVE, detail=f"{ci.name}.{attr} = `{norm(v)[:60]}`: not recognisably the problem's direction", construct=f"{ci.name}.{attr}"))
+    # a choice resolved ONCE in the constructor from a direction-named parameter (`self._argbest = np.argmax if maximize else
+    # np.argmin`): the same provenance question, one step earlier
+    for ci in ctx.prog.classes.values():
+        if ci.module.name.startswith(NON_DECISION_MODULES) or ctx.prog.is_subclass(ci, problem_base):
+            continue
+        m = ci.methods.get("__init__")
+        if m is None or m.self_name() is None:
+            continue
+        dparams = [p_ for p_ in m.params() if any(w in p_.lower() for w in ("maximi", "minimi"))]
+        for y in body_walk(m.node):
+            if not (isinstance(y, (ast.Assign, ast.AnnAssign)) and getattr(y, "value", None) is not None) or isinstance(y.value, ast.Name):
+                continue
+            tg = [t for t in (y.targets if isinstance(y, ast.Assign) else [y.target]) if is_self_attr(t, None, m.self_name())]
+            used = [p_ for p_ in dparams if any(isinstance(x, ast.Name) and x.id == p_ for x in ast.walk(y.value))]
+            if tg and used:
+                n += 1
+                _follow_direction_param(ctx, obs, ci, m, y, used[0], tg[0].attr if "max" in tg[0].attr or "min" in tg[0].attr else "maximize-derived:" + tg[0].attr)
     # a direction-derived value cached at first use in an object that serves several problems: sprout filters / generators /
     # stop conditions belong to the configuration and are shared by every tree built from it, also trees of the other direction
     for ci in ctx.prog.classes.values():
@@ -812,6 +865,16 @@ def r13_10(ctx: Ctx):
                 for x in ast.walk(r.value):
                     if not inf_sign(x) or (isinstance(par.get(id(x)), ast.UnaryOp)):
                         continue
+                    # an operand of a comparison / a call argument is not what is returned
+                    q0, consumed = x, False
+                    while q0 is not r.value and q0 is not None:
+                        p0 = par.get(id(q0))
+                        if isinstance(p0, (ast.Compare, ast.Call, ast.BoolOp)) and not (isinstance(p0, ast.Call) and norm(p0.func) in ("float", "np.float64")):
+                            consumed = True
+                            break
+                        q0 = p0
+                    if consumed:
+                        continue
                     n += 1
                     # under a maximize switch (conditional expression or if statement)?
                     q, under = x, False
@@ -831,6 +894,37 @@ def r13_10(ctx: Ctx):
         # the sentinel is not spelled as a returned literal (a table, a local): nothing is returned unconditionally
         obs.append(ctx.ob("R13.10", None, None, subject="core.problem", loc="-", detail="no problem method returns a literal infinite value", construct="no-literal-inf"))
     return obs
+
+
+def _adapted_optimiser_value(ctx, f, args):
+    """an operand `<res>.fun` where <res> is the result of an optimiser run on a sign-adapted objective defined in f"""
+    defs = local_defs(f)
+    nested = {d.name: d for d in ast.walk(f.node) if isinstance(d, (ast.FunctionDef,)) and d is not f.node}
+    signs = _sign_names(ctx, f)
+    for a in args:
+        if not (isinstance(a, ast.Attribute) and a.attr == "fun" and isinstance(a.value, ast.Name)):
+            continue
+        ds = defs.get(a.value.id, [])
+        if len(ds) != 1 or not isinstance(ds[0], ast.Call):
+            continue
+        call = ds[0]
+        g = next((k.value for k in call.keywords if k.arg == "fun"), call.args[0] if call.args else None)
+        body = None
+        if isinstance(g, ast.Lambda):
+            body = [g.body]
+        elif isinstance(g, ast.Name) and g.id in nested:
+            body = [r.value for r in ast.walk(nested[g.id]) if isinstance(r, ast.Return) and r.value is not None]
+        if not body:
+            continue
+        def adapted(e):
+            if isinstance(e, ast.BinOp) and isinstance(e.op, ast.Mult):
+                return any(norm(x) in signs or _is_inline_sign(x) for x in (e.left, e.right))
+            if isinstance(e, ast.IfExp) and _reads_maximize(e.test):
+                return isinstance(e.body, ast.UnaryOp) != isinstance(e.orelse, ast.UnaryOp)
+            return False
+        if all(adapted(e) for e in body):
+            return a
+    return None
 
 
 def r13_11(ctx: Ctx):
@@ -855,6 +949,10 @@ def r13_11(ctx: Ctx):
                         fixed = (isinstance(side, ast.Constant) and isinstance(side.value, (int, float)) and side.value != 0) or (isinstance(side, ast.Name) and side.id.isupper()) or (isinstance(side, ast.Attribute) and side.attr.isupper())
                         if fixed:
                             shifted = a
+            adapted = _adapted_optimiser_value(ctx, f, c.args)
+            if adapted is not None:
+                obs.append(ctx.ob("R13.11", f, c, status=VIOLATION, detail=f"{f.short}: `{norm(c)[:90]}` hands `{norm(adapted)}` - the value of a SIGN-ADAPTED objective (-f when maximising) reported by the optimiser - to the direction-aware comparison as if it were a fitness: on a maximisation problem a value of the wrong sign is compared, so the decision on (f, max) differs from the one on (-f, min)", construct=f"{f.short}:adapted-operand"))
+                continue
             if shifted is not None:
                 obs.append(ctx.ob("R13.11", f, c, status=VIOLATION, detail=f"{f.short}: `{norm(c)[:90]}` compares a fitness shifted by a fixed-sign amount (`{norm(shifted)}`): under minimisation the shift makes the test easier to pass, under maximisation harder (or the reverse), so the decision on (f, max) differs from the one on (-f, min)", construct=f"{f.short}:shifted-operand"))
             else:
